@@ -28,6 +28,7 @@ type walker struct {
 	p      int
 	fields []field
 	ops    []seenOp // every instruction seen by instrs, with its first LEB immediate
+	inElemItem bool // walking an item expression of an element segment
 }
 
 type seenOp struct {
@@ -253,7 +254,9 @@ func fieldMap(b []byte) []field {
 				n := w.uleb("elem.init.count")
 				for j := uint64(0); j < n; j++ {
 					if flag&4 != 0 {
+						w.inElemItem = true
 						w.constExpr()
+						w.inElemItem = false
 					} else {
 						w.uleb("elem.init.funcidx")
 					}
@@ -356,7 +359,11 @@ func (w *walker) instrs(untilEnd bool) {
 		case op == 0xd0:
 			w.imm1("imm.reftype")
 		case op == 0xd2:
-			w.uleb("imm.funcidx")
+			if w.inElemItem {
+				w.uleb("elem.init.reffunc")
+			} else {
+				w.uleb("imm.funcidx")
+			}
 		case op == 0xfc:
 			sub := w.uleb("imm.misc.op")
 			switch sub {
@@ -447,11 +454,54 @@ func scanBody(body []byte) (ops []seenOp) {
 // non-canonical encodings: the original value padded to 2 and to 3 bytes, and `ff 7f`. Pairs of
 // deviations use the first ten only.
 const (
-	nDevValues  = 13
+	nBaseValues = 13
 	nPairValues = 10
 )
 
-var devNames = [nDevValues]string{"0", "1", "0x7f", "0x80", "2^16", "2^31-1", "2^31", "2^32-1", "overlong", "6-byte", "pad2", "pad3", "ff7f"}
+// extraVal: further replacement values (second seeded miss: wazero keeps internal tag bits inside index
+// spaces — 2^30 = "element item comes from global k", 2^31 = "null reference" — and a weakened range
+// check lets an index in [2^27, 2^31) collide with them). Every field additionally gets every power of
+// two 2^k, k = 0..32, and 2^k-1 and 2^k|1 for k = 26..31 (minus the values already in the base set);
+// the items of element segments also get 2^30|k and 2^31|k for k = 0..3 (tag bit + small index).
+type extraVal struct {
+	name     string
+	v        uint64
+	elemOnly bool
+}
+
+var extraVals = func() []extraVal {
+	base := map[uint64]bool{0: true, 1: true, 0x7f: true, 0x80: true, 1 << 16: true, 1<<31 - 1: true, 1 << 31: true, 1<<32 - 1: true}
+	var out []extraVal
+	add := func(name string, v uint64, elemOnly bool) {
+		if base[v] {
+			return
+		}
+		base[v] = true
+		out = append(out, extraVal{name, v, elemOnly})
+	}
+	for k := 0; k <= 32; k++ {
+		add(fmt.Sprintf("2^%d", k), 1<<uint(k), false)
+	}
+	for k := 26; k <= 31; k++ {
+		add(fmt.Sprintf("2^%d-1", k), 1<<uint(k)-1, false)
+		add(fmt.Sprintf("2^%d|1", k), 1<<uint(k)|1, false)
+	}
+	for _, k := range []uint64{0, 1, 2, 3} {
+		add(fmt.Sprintf("2^30|%d", k), 1<<30|k, true)
+		add(fmt.Sprintf("2^31|%d", k), 1<<31|k, true)
+	}
+	return out
+}()
+
+var nDevValues = nBaseValues + len(extraVals)
+
+var devNames = func() []string {
+	n := []string{"0", "1", "0x7f", "0x80", "2^16", "2^31-1", "2^31", "2^32-1", "overlong", "6-byte", "pad2", "pad3", "ff7f"}
+	for _, e := range extraVals {
+		n = append(n, e.name)
+	}
+	return n
+}()
 
 // legalPadding: replacement #v is a legal re-encoding of the same value when the field is a LEB128 in
 // the specification (padding up to the width limit).
@@ -511,6 +561,18 @@ func devBytes(b []byte, f field, v int) []byte {
 		r = pad(orig, f.Signed, 3)
 	case 12:
 		r = []byte{0xff, 0x7f}
+	default:
+		e := extraVals[v-nBaseValues]
+		elemItem := f.Kind == "elem.init.funcidx" || f.Kind == "elem.init.reffunc"
+		if e.elemOnly && !elemItem {
+			return nil
+		}
+		// the number of locals is unbounded in wazero (open finding alloc:...decodeCode:localTypes): every
+		// value between 2^20 and 2^31 costs seconds to minutes of CPU per evaluation and only re-hits it
+		if f.Kind == "code.local.n" && e.v > 1<<20 {
+			return nil
+		}
+		r = uleb(e.v)
 	}
 	if r == nil || string(r) == string(orig) {
 		return nil
